@@ -251,7 +251,7 @@ func VerifHarness_C03_verify_arbitrary() {
 }
 
 func VerifHarness_C03_verify_two() {
-	s := buildArchive([]int{4, 5}, 2, 1)
+	s := buildArchiveMode([]int{4, 5}, 2, 1, contentChoice())
 	k0 := rt.Choice("kind0", dmgKinds-1)
 	k1 := rt.Choice("kind1", 3)
 	if rt.Bool("swap") {
@@ -272,8 +272,13 @@ func VerifHarness_C03_verify_two() {
 func expectedLost(x []byte, kind int) int {
 	n := (len(x) + scnSlice - 1) / scnSlice
 	switch kind {
-	case dmgIntact, dmgInsertFront, dmgAppend:
+	case dmgIntact, dmgInsertFront:
 		return 0
+	case dmgAppend:
+		if len(x)%scnSlice == 0 {
+			return 0
+		}
+		return 1
 	case dmgMissing:
 		return n
 	case dmgOverwriteSlice:
@@ -283,7 +288,7 @@ func expectedLost(x []byte, kind int) int {
 }
 
 func VerifHarness_C01_repair_one() {
-	s := buildArchive(oneFileLens(), 2, 1+rt.Choice("g", 2))
+	s := buildArchiveMode(oneFileLens(), 2, 1+rt.Choice("g", 2), contentChoice())
 	kind := rt.Choice("kind", dmgKinds)
 	damage(s, 0, kind, "a")
 	_, err := checkRepair(s, rt.Bool("doubleCheck"), 1)
@@ -298,7 +303,7 @@ func VerifHarness_C01_repair_one() {
 }
 
 func VerifHarness_C01_repair_two() {
-	s := buildArchive([]int{4, 5}, 2, 1)
+	s := buildArchiveMode([]int{4, 5}, 2, 1, contentChoice())
 	k0 := rt.Choice("kind0", 4)
 	k1 := rt.Choice("kind1", 2)
 	swap := rt.Bool("swap")
@@ -322,7 +327,7 @@ func VerifHarness_C01_repair_two() {
 }
 
 func VerifHarness_C02_repair_arbitrary() {
-	s := buildArchive(oneFileLens(), 1, 1)
+	s := buildArchiveMode(oneFileLens(), 1, 1, contentChoice())
 	s.fs.put(scnDir+"/bystander", []byte("x"))
 	damage(s, 0, dmgArbitrary, "a")
 	checkRepair(s, rt.Bool("doubleCheck"), 1)
@@ -348,7 +353,7 @@ func replaceRecoveryData(data []byte, tag string) []byte {
 }
 
 func VerifHarness_C02_garbage_parity() {
-	s := buildArchive(oneFileLens(), 1, 1)
+	s := buildArchiveMode(oneFileLens(), 1, 1, contentChoice())
 	vol := scnDir + "/s.vol00+01.par2"
 	s.fs.put(vol, replaceRecoveryData(s.fs.files[vol], "junk"))
 	damage(s, 0, rt.Choice("kind", 3), "a")
@@ -358,15 +363,19 @@ func VerifHarness_C02_garbage_parity() {
 // C16 (b): arbitrary current content; every original slice that still occurs
 // (and is not overlapped by an earlier hit of the greedy scan) is found.
 func VerifHarness_C16_search_arbitrary() {
-	s := buildArchive(oneFileLens(), 1, 1)
+	s := buildArchiveMode(oneFileLens(), 1, 1, contentChoice())
 	kind := []int{dmgInsertFront, dmgTruncate, dmgAppend, dmgOverwriteSlice}[rt.Choice("kind", 4)]
 	damage(s, 0, kind, "a")
 	res, err := verify(s.fs, scnIndex, VerifyOptions{NumGoroutines: 1})
 	rt.Assert(err == nil, "Verify returns a result")
 	n := len(slicesOf(s.orig[0]))
 	switch kind {
-	case dmgInsertFront, dmgAppend:
-		rt.Assert(res.ShardCounts.UsableDataShardCount == n, "bytes inserted before / appended after the content: every slice is still found")
+	case dmgInsertFront:
+		rt.Assert(res.ShardCounts.UsableDataShardCount == n, "bytes inserted before the content: every slice is still found (shifted)")
+	case dmgAppend:
+		// a short last slice no longer has its zero padding at end of file
+		full := len(s.orig[0]) / scnSlice
+		rt.Assert(res.ShardCounts.UsableDataShardCount >= full, "bytes appended: every full slice is still found")
 	case dmgOverwriteSlice:
 		rt.Assert(res.ShardCounts.UsableDataShardCount >= n-1, "one slice overwritten: all other slices are found")
 	case dmgTruncate:
@@ -379,7 +388,7 @@ func VerifHarness_C16_search_arbitrary() {
 // Repair leaves a clean state in which a further Repair writes nothing; a
 // failed Repair leaves every file with its previous or its original content.
 func VerifHarness_C14_step() {
-	s := buildArchive(oneFileLens(), 1, 1)
+	s := buildArchiveMode(oneFileLens(), 1, 1, contentChoice())
 	damage(s, 0, rt.Choice("kind", dmgKinds), "a")
 	if rt.Bool("dropVolume") {
 		s.fs.remove(scnDir + "/s.vol00+01.par2")
